@@ -99,6 +99,8 @@ def check_pair(res):
     if not res["conv"]:
         return "skip"
     lam = res["lam"]
+    default = not res.get("tight", True)
+    extra = {"default_tolerance": True} if default else {}
     for nm in ("Ns", "Ms", "Nr", "Mr"):
         a, b = np.array(res[nm][0]), np.array(res[nm][1])
         if np.isnan(a).any() or np.isnan(b).any():
@@ -109,21 +111,21 @@ def check_pair(res):
         bad = np.abs(b / lam - a) > 1e-4 * np.maximum(np.abs(a), tot * 1e-3) + thr
         if np.any(bad):
             i = tuple(int(x) for x in np.argwhere(bad)[0])
-            out = {"clause": f"{nm} scales with the population size", "index": i, "observed": repr(float(b[i] / lam)), "expected": repr(float(a[i]))}
-            if not res.get("tight", True):
-                # at the code's own integrator tolerance: how far off, relative to the bin (for the known-finding classifier)
-                dev = (np.abs(b / lam - a) - thr) / np.maximum(np.abs(a), tot * 1e-3)
-                out["default_tolerance"] = True
-                out["rel_dev"] = float(np.max(dev))
+            out = {"clause": f"{nm} scales with the population size", "index": i, "observed": repr(float(b[i] / lam)), "expected": repr(float(a[i])), **extra}
+            if default:
+                # at the code's own integrator tolerance: how far off, relative to the bin and to the largest bin of the row's class
+                excess = np.abs(b / lam - a) - thr
+                out["rel_dev"] = float(np.max(excess / np.maximum(np.abs(a), tot * 1e-3)))
+                out["dev_of_largest"] = float(np.max(excess) / tot)
             return out
     a, b = np.array(res["alpha"][0]), np.array(res["alpha"][1])
     if np.any(np.abs(a - b) > 5e-3):
-        return {"clause": "slopes unchanged by the population size"}
+        return {"clause": "slopes unchanged by the population size", "max_diff": float(np.max(np.abs(a - b))), **extra}
     Na, Nb = np.array(res["Ns"][0]), np.array(res["Ns"][1])
     ma, mb_ = np.array(res["ms"][0]), np.array(res["ms"][1])
     big = (Na > 10) & (Nb > 10)
     if np.any(np.abs(ma - mb_)[big] > 1e-3 * ma[big]):
-        return {"clause": "mean masses unchanged by the population size"}
+        return {"clause": "mean masses unchanged by the population size", "max_rel": float(np.max((np.abs(ma - mb_) / ma)[big])), **extra}
     return None
 
 
@@ -239,4 +241,13 @@ def classify(entry, failure):
     if entry.get("classifier") != "default_tolerance_scale":
         return False
     obs = failure.get("observed") or {}
-    return bool(obs.get("default_tolerance")) and obs.get("rel_dev") is not None and obs["rel_dev"] <= 0.2
+    if not obs.get("default_tolerance"):
+        return False
+    if obs.get("rel_dev") is not None:
+        # within 20 % of the bin, or (a bin that is empty in one run) within 1 % of the largest bin of its class
+        return obs["rel_dev"] <= 0.2 or obs.get("dev_of_largest", 1.0) <= 0.01
+    if "max_diff" in obs:
+        return obs["max_diff"] <= 0.05          # slopes
+    if "max_rel" in obs:
+        return obs["max_rel"] <= 0.02           # mean masses
+    return False
